@@ -122,3 +122,26 @@ CHECKS["C13"] = dict(
         dict(name="banned", test="TestBanned", kind="rapid", checks={"quick": 500, "thorough": 5000}, shards=1),
     ],
 )
+
+CHECKS["C17"] = dict(
+    pkg="c17", level="exploration",
+    rule=("part frames: rapid-generated frames over a unix stream socketpair: well-formed (type 0..255, payload 0..4093 bytes) sent with the real "
+          "sendMessage and read with the real readMessage must round-trip exactly; hostile raw frames (one write of 1..4096 bytes, declared "
+          "length near the boundaries 0..4,4090..4097,65535, near the carried length +-3, or arbitrary): declared > carried must be an "
+          "error, declared == carried must round-trip, declared < carried is accepted as exactly the declared prefix or rejected, < 3 "
+          "bytes is an error, never a panic; part frame-boundaries enumerates 13 total lengths x 18 declared lengths. part sequences: "
+          "hotrestart.New(scripted instance) as parent, 1..3 raw unix-socket children each sending 0..6 steps (the four requests with or "
+          "without JSON payload, unknown types, malformed frames, child disappearing without reading the reply): recorded Instance calls / "
+          "kill == requested steps in order, one per request, matching reply types, unknown -> unknown reply, next child served. "
+          "Non-trivial: declared != carried (frames); sequence contains a malformed/unknown frame or a child hand-over. Distinct by "
+          "(length, declared, type, fill) resp. canonical JSON."),
+    assumptions=["each frame is written by one write of <= 4096 bytes and the next frame is only sent after the parent consumed the previous one "
+                 "(SIOCOUTQ == 0) or replied: re-synchronisation of the byte stream after an oversized (> 4096 byte) frame is not decided",
+                 "kill is replaced through the verif hook so the test process is not signalled"],
+    parts=[
+        dict(name="frames", test="TestFrames", kind="rapid", checks={"quick": 10000, "thorough": 400000}, shards=8, timeout={"quick": 600, "thorough": 3000}),
+        dict(name="frame-boundaries", test="TestFrameBoundaries", kind="plain"),
+        dict(name="sequences", test="TestSequences", kind="rapid", checks={"quick": 400, "thorough": 12000}, shards=8, timeout={"quick": 600, "thorough": 3000},
+             crash_is_violation=True),
+    ],
+)
